@@ -691,6 +691,21 @@ impl World
         };
         let post = self.sys.snapshot();
         let printed = printer.lines.lock().unwrap().clone();
+        if std::env::var("VERIF_TRACE").is_ok()
+        {
+            eprintln!("--- {:?} under {:?}", inv, sch);
+            for e in log.iter()
+            {
+                if e.op.is_mutation() || matches!(e.op, super::vsys::Op::Exec(_))
+                {
+                    eprintln!("    t{} {}{:?} ok={} {}", e.thread, if e.in_cmd { "cmd: " } else { "" }, e.op, e.ok, e.note);
+                }
+            }
+            for (p, f) in post.iter()
+            {
+                if !p.ends_with(".rules") { eprintln!("    = {} {:?} exec={} mtime={}", p, String::from_utf8_lossy(&f.data[..f.data.len().min(24)]), f.exec, f.mtime % 100000); }
+            }
+        }
         Obs
         {
             inv,
